@@ -126,6 +126,24 @@ let run_idx mo jo impl secs =
        let present = Hashtbl.create 1024 in
        List.iter (fun d -> Hashtbl.replace present (zout d) ()) data;
        let epsrec = iz cfg.c_epsrec in
+       (* level layout of the implementation's own index, for the routing judge *)
+       let offs = Array.of_list (List.concat_map (function "O" :: t -> List.map int_of_string t | _ -> []) lines) in
+       let segk = Array.of_list (List.filter_map (function ["S"; k; _; _; _] -> Some (zz_of_z (zin k)) | _ -> None) lines) in
+       let fkey = List.fold_left (fun a l -> match l with ["N"; _; f] -> ZA.of_string f | _ -> a) ZA.zero lines in
+       List.iter (fun toks ->
+         match toks with
+         | ["T"; q; l; wlo; _first; last] when Array.length offs > 1 ->
+           (* the responsible segment of level l (rightmost with key <= max(q, first_key)) lies inside the window *)
+           let li = int_of_string l in
+           if li + 1 < Array.length offs then begin
+             let k = let qq = ZA.of_string q in if ZA.lt qq fkey then fkey else qq in
+             let b = offs.(li) and e = offs.(li + 1) - 1 in        (* the last slot of a level is its sentinel *)
+             let t = ref b in
+             for i = b to e - 1 do if ZA.leq segk.(i) k then t := i done;
+             judge jo "C07" id ("q=" ^ q ^ " level " ^ l ^ ": responsible segment " ^ string_of_int !t ^ " outside the window [" ^ wlo ^ "," ^ last ^ "]")
+               (int_of_string wlo <= !t && !t <= int_of_string last)
+           end
+         | _ -> ()) lines;
        List.iter (fun toks ->
          match toks with
          | ["Q"; q; pos; lo; hi] ->
@@ -884,7 +902,7 @@ let run_thr mo jo impl secs =
   | ("THR" :: id :: _) :: _ ->
     pr mo "C %s\n" id;
     List.iter (fun c -> pr mo "D %s ok\n" c)
-      ["PGMIndex"; "CompressedPGMIndex"; "BucketingPGMIndex"; "EliasFanoPGMIndex"; "MappedPGMIndex"; "MultidimensionalPGMIndex"; "DynamicPGMIndex"];
+      ["PGMIndex"; "OneLevelPGMIndex"; "PGMIndexBinaryRouting"; "CompressedPGMIndex"; "BucketingPGMIndex"; "EliasFanoPGMIndex"; "MappedPGMIndex"; "MultidimensionalPGMIndex"; "DynamicPGMIndex"];
     (match Hashtbl.find_opt impl id with
      | None -> ()
      | Some lines -> List.iter (function
